@@ -244,6 +244,9 @@ def oracle(ops, outs):
 def builder_names(ctx, rng, count):
     """every Variable of a Problem produced by a relaxation builder has a distinct name"""
     import sageopt as so
+    import sageopt.coniclifts as cl
+    import pickle
+    from collections import Counter
     probs = []
     y = so.standard_sig_monomials(2)
     x = so.standard_poly_monomials(2)
@@ -270,6 +273,34 @@ def builder_names(ctx, rng, count):
         if len(set(names)) != len(names):
             dup = sorted({n for n in names if names.count(n) > 1})
             bad.append(('%s produced a Problem with duplicate Variable names %s' % (name, dup[:3]), {'builder': name}))
+            continue
+        # every Variable of the compiled Problem has exactly one index per component, distinct from all others
+        seen_ids, why = {}, None
+        for v in pr.all_variables:
+            ids = [int(i) for i in v.scalar_variable_ids]
+            if len(ids) != int(v.size) or len(set(ids)) != len(ids):
+                why = 'Variable %s with %d components reports %d indices (%d distinct)' % (v.name, v.size, len(ids), len(set(ids)))
+                break
+            for i in ids:
+                if i in seen_ids and seen_ids[i] != v.name:
+                    why = 'index %d belongs to both %s and %s' % (i, seen_ids[i], v.name)
+                    break
+                seen_ids[i] = v.name
+            if why:
+                break
+        if why:
+            bad.append(('%s: after compiling, %s' % (name, why), {'builder': name}))
+            continue
+        # pickle round trip of the built Problem: the unpickled model compiles to the same system
+        try:
+            p2 = pickle.loads(pickle.dumps(pr))
+            p3 = cl.Problem(p2.objective_sense, p2.objective_expr, p2.constraints)
+            sig = lambda q: (tuple(q.A.shape), int(q.A.nnz), sorted(Counter((co.type, int(co.len)) for co in q.K).items()))  # noqa: E731
+            if sig(p3) != sig(pr):
+                bad.append(('%s: the Problem rebuilt from its unpickled constraints compiles to %s, the original to %s'
+                            % (name, sig(p3), sig(pr)), {'builder': name}))
+        except Exception as e:  # noqa: BLE001
+            bad.append(('%s: pickle round trip + recompile raised %s: %s' % (name, type(e).__name__, str(e)[:80]), {'builder': name}))
     return bad
 
 
